@@ -166,6 +166,15 @@ impl Router {
             })
             .unwrap_or((false, false, false, None, None));
 
+        // `HttpContext::reset` keeps `sticky_session` across keep-alive
+        // requests. When this request's cluster does not stick, a value left
+        // by an earlier request to a sticky cluster must not reach
+        // `on_response_headers`, or the response would carry a sticky cookie
+        // naming another cluster's backend.
+        if !frontend_should_stick {
+            stream_context.sticky_session = None;
+        }
+
         // ── Legacy `cluster.https_redirect` short-circuit ──
         //
         // Resolve the legacy HTTP→HTTPS redirect BEFORE per-(cluster,
